@@ -96,16 +96,19 @@ func (f *singleNodeReader) Seek(offset int64, whence int) (int64, error) {
 		return 0, err
 	}
 
+	target := f.offset
 	switch whence {
 	case io.SeekStart:
-		f.offset = int(offset)
+		target = int(offset)
 	case io.SeekCurrent:
-		f.offset += int(offset)
+		target = f.offset + int(offset)
 	case io.SeekEnd:
-		f.offset = len(buf) + int(offset)
+		target = len(buf) + int(offset)
 	}
-	if f.offset < 0 {
+	if target < 0 {
+		// reject the seek without moving: the reader stays usable at its old position
 		return 0, io.EOF
 	}
+	f.offset = target
 	return int64(f.offset), nil
 }
